@@ -19,7 +19,7 @@ def cfg_from_table(t):
     return {
         "readAcq": all(o(k) in ACQ for k in (0, 2, 4)),
         "writeAcq": all(o(k) in ACQ for k in (7, 8, 10)),
-        "readRel": o(3) in REL, "writeRel": o(9) in REL, "spin": 100,
+        "readRel": o(3) in REL, "writeRel": o(9) in REL, "spin": max(0, int(t["extra"].get("rwlock_spin", 100))),
     }
 
 
